@@ -27,165 +27,9 @@ var zzC04FamIDs = []string{
 	"C04-arity-undocumented-count-go-fault",
 }
 
-var zzC04Known = []zzC04KnownRow{
-	{"clos:class-metaclass", 2, 1},          // RTT
-	{"clos:class-metaclass", 3, 1},          // RTT
-	{"clos:class-name", 2, 1},               // RTT
-	{"clos:class-name", 3, 1},               // RTT
-	{"clos:class-precedence", 2, 1},         // RTT
-	{"clos:class-precedence", 3, 1},         // RTT
-	{"clos:class-supers", 2, 1},             // RTT
-	{"clos:class-supers", 3, 1},             // RTT
-	{"clos:initialize-instance", 0, 2},      // TTT
-	{"clos:shared-initialize", 0, 2},        // TTT
-	{"clos:shared-initialize", 1, 2},        // TTT
-	{"common-lisp:-", 0, 0},                 // AAA
-	{"common-lisp:/", 0, 0},                 // AAA
-	{"common-lisp:/=", 0, 0},                // AAA
-	{"common-lisp:<", 0, 0},                 // AAA
-	{"common-lisp:<=", 0, 0},                // AAA
-	{"common-lisp:=", 0, 0},                 // AAA
-	{"common-lisp:>", 0, 0},                 // AAA
-	{"common-lisp:>=", 0, 0},                // AAA
-	{"common-lisp:apply", 1, 0},             // AAA
-	{"common-lisp:case", 0, 3},              // GGG
-	{"common-lisp:char-equal", 0, 0},        // AAA
-	{"common-lisp:char-greaterp", 0, 0},     // AAA
-	{"common-lisp:char-lessp", 0, 0},        // AAA
-	{"common-lisp:char-not-equal", 0, 0},    // AAA
-	{"common-lisp:char-not-greaterp", 0, 0}, // AAA
-	{"common-lisp:char-not-lessp", 0, 0},    // AAA
-	{"common-lisp:char/=", 0, 0},            // AAA
-	{"common-lisp:char<", 0, 0},             // AAA
-	{"common-lisp:char<=", 0, 0},            // AAA
-	{"common-lisp:char=", 0, 0},             // AAA
-	{"common-lisp:char>", 0, 0},             // AAA
-	{"common-lisp:char>=", 0, 0},            // AAA
-	{"common-lisp:decf", 1, 2},              // TTT
-	{"common-lisp:declaim", 0, 1},           // RRR
-	{"common-lisp:declaim", 2, 1},           // RRR
-	{"common-lisp:declaim", 3, 1},           // RRR
-	{"common-lisp:declaration", 0, 2},       // TTT
-	{"common-lisp:declaration", 2, 2},       // TTT
-	{"common-lisp:declaration", 3, 2},       // TTT
-	{"common-lisp:declare", 0, 1},           // RRR
-	{"common-lisp:declare", 2, 1},           // RRR
-	{"common-lisp:declare", 3, 1},           // RRR
-	{"common-lisp:defmacro", 0, 3},          // GGG
-	{"common-lisp:defmacro", 1, 3},          // GTT
-	{"common-lisp:defun", 0, 3},             // GGG
-	{"common-lisp:defun", 1, 3},             // GTT
-	{"common-lisp:digit-char", 1, 1},        // RRT
-	{"common-lisp:digit-char-p", 1, 1},      // RTT
-	{"common-lisp:dynamic-extent", 0, 2},    // TTT
-	{"common-lisp:dynamic-extent", 2, 2},    // TTT
-	{"common-lisp:dynamic-extent", 3, 2},    // TTT
-	{"common-lisp:ecase", 0, 3},             // GGG
-	{"common-lisp:every", 1, 0},             // AAA
-	{"common-lisp:ftype", 0, 2},             // TTT
-	{"common-lisp:ftype", 2, 2},             // TTT
-	{"common-lisp:ftype", 3, 2},             // TTT
-	{"common-lisp:funcall", 1, 0},           // AAA
-	{"common-lisp:ignorable", 0, 2},         // TTT
-	{"common-lisp:ignorable", 2, 2},         // TTT
-	{"common-lisp:ignorable", 3, 2},         // TTT
-	{"common-lisp:ignore", 0, 2},            // TTT
-	{"common-lisp:ignore", 2, 2},            // TTT
-	{"common-lisp:ignore", 3, 2},            // TTT
-	{"common-lisp:incf", 1, 2},              // TTT
-	{"common-lisp:inline", 0, 2},            // TTT
-	{"common-lisp:inline", 2, 2},            // TTT
-	{"common-lisp:inline", 3, 2},            // TTT
-	{"common-lisp:list*", 0, 0},             // AAA
-	{"common-lisp:mapc", 1, 0},              // AAA
-	{"common-lisp:mapcan", 1, 0},            // AAA
-	{"common-lisp:mapcar", 1, 0},            // AAA
-	{"common-lisp:mapcon", 1, 0},            // AAA
-	{"common-lisp:mapl", 1, 0},              // AAA
-	{"common-lisp:maplist", 1, 0},           // AAA
-	{"common-lisp:max", 2, 1},               // RRT
-	{"common-lisp:max", 3, 1},               // RRT
-	{"common-lisp:member-if", 5, 2},         // TTT
-	{"common-lisp:member-if", 6, 1},         // RTT
-	{"common-lisp:min", 2, 1},               // RRT
-	{"common-lisp:min", 3, 1},               // RRT
-	{"common-lisp:notany", 1, 0},            // AAA
-	{"common-lisp:notevery", 1, 0},          // AAA
-	{"common-lisp:notinline", 0, 2},         // TTT
-	{"common-lisp:notinline", 2, 2},         // TTT
-	{"common-lisp:notinline", 3, 2},         // TTT
-	{"common-lisp:nsubst-if", 6, 1},         // RTT
-	{"common-lisp:nsubst-if", 7, 1},         // RTT
-	{"common-lisp:nsubstitute-if", 14, 1},   // RTT
-	{"common-lisp:nsubstitute-if", 15, 1},   // RTT
-	{"common-lisp:optimize", 0, 2},          // TTT
-	{"common-lisp:optimize", 2, 2},          // TTT
-	{"common-lisp:optimize", 3, 2},          // TTT
-	{"common-lisp:proclaim", 0, 1},          // RRR
-	{"common-lisp:proclaim", 2, 1},          // RRR
-	{"common-lisp:proclaim", 3, 1},          // RRR
-	{"common-lisp:prog1", 0, 0},             // AAA
-	{"common-lisp:prog2", 0, 0},             // AAA
-	{"common-lisp:prog2", 1, 0},             // AAA
-	{"common-lisp:psetf", 0, 1},             // RRR
-	{"common-lisp:psetf", 1, 2},             // TTT
-	{"common-lisp:psetf", 3, 2},             // TTT
-	{"common-lisp:psetf", 4, 2},             // TTT
-	{"common-lisp:psetq", 0, 1},             // RRR
-	{"common-lisp:psetq", 1, 2},             // TTT
-	{"common-lisp:psetq", 3, 2},             // TTT
-	{"common-lisp:psetq", 4, 2},             // TTT
-	{"common-lisp:return", 0, 2},            // TTT
-	{"common-lisp:return", 2, 2},            // TTT
-	{"common-lisp:return", 3, 2},            // TTT
-	{"common-lisp:return-from", 1, 2},       // TTT
-	{"common-lisp:return-from", 3, 2},       // TTT
-	{"common-lisp:return-from", 4, 2},       // TTT
-	{"common-lisp:setf", 0, 1},              // RRR
-	{"common-lisp:setf", 1, 2},              // TTT
-	{"common-lisp:setf", 3, 2},              // TTT
-	{"common-lisp:setf", 4, 2},              // TTT
-	{"common-lisp:setq", 0, 1},              // RRR
-	{"common-lisp:setq", 1, 2},              // TTT
-	{"common-lisp:setq", 3, 2},              // TTT
-	{"common-lisp:setq", 4, 2},              // TTT
-	{"common-lisp:some", 1, 0},              // AAA
-	{"common-lisp:special", 0, 2},           // TTT
-	{"common-lisp:special", 2, 2},           // TTT
-	{"common-lisp:special", 3, 2},           // TTT
-	{"common-lisp:subst-if", 6, 1},          // RTT
-	{"common-lisp:subst-if", 7, 1},          // RTT
-	{"common-lisp:substitute-if", 14, 1},    // RTT
-	{"common-lisp:substitute-if", 15, 1},    // RTT
-	{"common-lisp:trace", 0, 1},             // RRR
-	{"common-lisp:trace", 2, 2},             // TTT
-	{"common-lisp:trace", 3, 2},             // TTT
-	{"common-lisp:type", 0, 2},              // TTT
-	{"common-lisp:type", 2, 2},              // TTT
-	{"common-lisp:type", 3, 2},              // TTT
-	{"common-lisp:untrace", 0, 1},           // RRR
-	{"common-lisp:untrace", 2, 1},           // RRR
-	{"common-lisp:untrace", 3, 1},           // RRR
-	{"common-lisp:unwind-protect", 1, 0},    // AAA
-	{"common-lisp:write-sequence", 1, 3},    // GGG
-	{"generic:next-method-p", 1, 2},         // TTT
-	{"generic:next-method-p", 2, 2},         // TTT
-	{"generic:no-applicable-method", 0, 2},  // TTT
-	{"generic:no-next-method", 0, 2},        // TTT
-	{"generic:no-next-method", 1, 2},        // TTT
-	{"generic:slot-missing", 0, 2},          // TTT
-	{"generic:slot-missing", 1, 2},          // TTT
-	{"generic:slot-missing", 2, 2},          // TTT
-	{"generic:slot-missing", 3, 2},          // TTT
-	{"generic:slot-unbound", 0, 2},          // TTT
-	{"generic:slot-unbound", 1, 2},          // TTT
-	{"generic:slot-unbound", 2, 2},          // TTT
-	{"gi:containsp", 3, 2},                  // TTT
-	{"gi:containsp", 4, 2},                  // TTT
-	{"gi:env", 1, 1},                        // RRR
-	{"gi:env", 2, 1},                        // RRR
-	{"gi:mapv", 1, 0},                       // AAA
-}
+// All rows that were recorded here have been repaired in slip (see the
+// fixed: lines of known_findings.d/C04.txt): every (function, count) is asserted.
+var zzC04Known = []zzC04KnownRow{}
 
 // zzC04KnownFam returns the family of a known mismatch or -1.
 func zzC04KnownFam(key string, n int) int {
@@ -207,25 +51,8 @@ type zzC04KnownTailRow struct {
 	fam     int
 }
 
-var zzC04KnownTails = []zzC04KnownTailRow{
-	{"common-lisp:adjoin", 0, 0},
-	{"common-lisp:adjoin", 1, 0},
-	{"common-lisp:make-hash-table", 0, 0},
-	{"common-lisp:make-hash-table", 1, 0},
-	{"common-lisp:nsubst-if", 1, 0},
-	{"common-lisp:pathname-directory", 0, 0},
-	{"common-lisp:pathname-name", 0, 0},
-	{"common-lisp:pathname-type", 0, 0},
-	{"common-lisp:subst-if", 1, 0},
-	{"common-lisp:write", 0, 0},
-	{"common-lisp:write", 1, 0},
-	{"common-lisp:write-to-string", 0, 0},
-	{"common-lisp:write-to-string", 1, 0},
-	{"common-lisp:read-from-string", 1, 1},
-	{"gi:defsystem", 0, 1},
-	{"gi:defsystem", 1, 1},
-	{"gi:parse-float", 1, 1},
-}
+// All recorded rows have been repaired in slip: every variant is asserted.
+var zzC04KnownTails = []zzC04KnownTailRow{}
 
 // zzC04KnownTail returns the family of a known key-tail defect or -1.
 func zzC04KnownTail(key string, variant int) int {
